@@ -637,7 +637,10 @@ def plateau_case(draw, tier):
         a, b = sorted(draw(st.lists(st.integers(0, T - 1), min_size=2, max_size=2, unique=True)))
     spec['range'] = [a, b]
     spec['method'] = draw(st.sampled_from(['fit', 'fit', 'fit', 'avg', 'average', 'mean']))
-    spec['via'] = draw(st.sampled_from(['arg', 'arg', 'set_prange', 'ctor_prange']))
+    spec['via'] = draw(st.sampled_from(['arg', 'arg', 'set_prange', 'ctor_prange', 'arg_over_prange']))
+    # a stored plateau range that differs from the one passed explicitly: the argument decides (documented default rule)
+    oa, ob = sorted(draw(st.lists(st.integers(0, T - 1), min_size=2, max_size=2, unique=True)))
+    spec['other'] = [oa, ob] if [oa, ob] != [a, b] else [0, T - 1] if [a, b] != [0, T - 1] else [0, max(1, T - 2)]
     spec['gamma'] = draw(st.sampled_from(['before', 'auto']))
     return spec
 
@@ -654,6 +657,8 @@ def plateau_oracle(spec):
         corr, refs = build_corr(spec)
         if via == 'set_prange':
             corr.set_prange([a, b])
+        elif via == 'arg_over_prange':
+            corr.set_prange(list(spec['other']))
     idx = [t for t in range(a, b + 1) if refs[t] is not None]
     kw = {}
     if method == 'fit' or spec['gamma'] == 'auto':
@@ -661,11 +666,11 @@ def plateau_oracle(spec):
             kw['auto_gamma'] = True
         else:
             corr.gamma_method()
-    what = 'plateau(%s, method=%r)' % ([a, b] if via == 'arg' else 'prange=%r' % ([a, b],), method)
+    what = 'plateau(%s, method=%r)' % ([a, b] if via in ('arg', 'arg_over_prange') else 'prange=%r' % ([a, b],), method)
     buf = io.StringIO()
     try:
         with contextlib.redirect_stdout(buf):
-            res = corr.plateau([a, b], method=method, **kw) if via == 'arg' else corr.plateau(method=method, **kw)
+            res = corr.plateau([a, b], method=method, **kw) if via in ('arg', 'arg_over_prange') else corr.plateau(method=method, **kw)
     except Exception as e:
         if idx:
             raise Violation('%s raised %s: %s although timeslice(s) %r of the range are defined' % (what, type(e).__name__, e, idx[:6])) from e
